@@ -136,6 +136,8 @@ def run_batch(run_seed, base_seed: int, n_runs: int | None, budget_s: float, wor
                         lst.append(seedspec)
                 if r.get("cov_new"):
                     agg.setdefault("cov", set()).update(tuple(k) for k in r["cov_new"])
+                if r.get("sched_sig"):
+                    agg.setdefault("sched_sigs", set()).add(r["sched_sig"])
                 if r.get("sample") and len(agg["samples"]) < 6:
                     agg["samples"].append(r["sample"])
                 if r.get("harness_error"):
